@@ -275,12 +275,59 @@ def _small_scope(ctx):
     ctx.extra["small_scope_texts"] = n
 
 
+def _lock_file_sessions(ctx):
+    """One environment dict whose set-valued entries are edited IN PLACE between evaluations (what a resolver
+    does while it activates extras): every evaluation is compared with packaging on the environment as it is now."""
+    M, single = MM.classes()
+    ctx.stratum = "main"
+    rnd = ctx.rnd
+    names = ["a", "b", "docs", "test", "foo-bar", "Foo_Bar", "c.d"]
+    texts = []
+    for n in names[:5]:
+        for var in ("extras", "dependency_groups"):
+            texts.append(f'"{n}" in {var}')
+            texts.append(f'"{n}" not in {var}')
+    texts += ['"docs" in extras and "test" not in dependency_groups', '"a" in extras or "b" in extras',
+              '"foo_bar" in extras and python_version >= "3.8"']
+    for _ in range(12 if ctx.tier == "quick" else 150):
+        extras, groups = set(rnd.sample(names, rnd.randint(0, 2))), set(rnd.sample(names, rnd.randint(0, 2)))
+        env = {"extras": extras, "dependency_groups": groups, "python_full_version": "3.9.1", "python_version": "3.9"}
+        for step in range(14):
+            k = rnd.random()
+            tgt = extras if rnd.random() < 0.6 else groups
+            if k < 0.45:
+                tgt.add(rnd.choice(names))          # in-place edits of the very same set objects
+            elif k < 0.7 and tgt:
+                tgt.discard(rnd.choice(sorted(tgt)))
+            elif k < 0.8:
+                tgt.clear()
+            for t in rnd.sample(texts, 4):
+                ctx.cases += 1
+                ctx.current_case = {"kind": "text", "text": t, "stratum": "main", "context": "lock_file"}
+                with oracle():
+                    exp = PkgMarker(t).evaluate({**env, "extras": set(extras), "dependency_groups": set(groups)}, context="lock_file")
+                try:
+                    got = M.parse_marker(t).evaluate(env, context="lock_file")  # env passed as is, not copied
+                except Exception as e:  # noqa: BLE001
+                    violation(PROP, "text-vs-packaging", f"evaluate raised {type(e).__name__}", {"text": t, "group": "raise"})
+                    continue
+                ctx.evaluations += 1
+                bump("in-place-env")
+                if bool(got) != bool(exp):
+                    violation(PROP, "text-vs-packaging", "marker evaluates differently from packaging after the environment's set was edited in place",
+                              {"text": t, "extras": sorted(extras), "dependency_groups": sorted(groups), "got": bool(got),
+                               "packaging": bool(exp), "step": step, "context": "lock_file", "group": "in-place-env"})
+                    break
+    ctx.shape("stratum:in-place-env")
+
+
 def run(ctx):
     quick = ctx.tier == "quick"
     ctx.c03_kept = []
     _atom_table(ctx)
     _small_scope(ctx)
     _lock_file(ctx)
+    _lock_file_sessions(ctx)
     _stratum(ctx, "main", MW.Cfg(), 700 if quick else 10000)
     _stratum(ctx, "prerelease", MW.Cfg(), 100 if quick else 1500)
     _stratum(ctx, "prelit", MW.Cfg(prelit=True, extras=False), 150 if quick else 2000)
